@@ -6,3 +6,7 @@ export CARGO_NET_OFFLINE=true
 mkdir -p build evidence
 (cd symex && CARGO_TARGET_DIR=../build/symex cargo build --quiet 2>build.err || { tail -30 build.err; exit 1; }; rm -f build.err)
 echo "setup: E1 workspace built"
+(cd replay && CARGO_TARGET_DIR=../build/replay cargo build --quiet 2>build.err || { tail -30 build.err; exit 1; }; rm -f build.err)
+echo "setup: replay workspace built"
+python3 lib/selftest.py > build/selftest.out 2>&1 || { cat build/selftest.out; exit 1; }
+echo "setup: stand-in fidelity self-test passed ($(python3 -c "import json;print(json.load(open('build/selftest.json'))['scenarios'])") scenario outcomes agree with the real crates)"
